@@ -561,13 +561,14 @@ class VariantPaths(productmd.common.MetadataBase):
         self.identity = parser.option_lookup(lookup, None)
 
     def deserialize_0_3(self, parser):
+        # the variant's own section is named after its UID; sections named
+        # after the plain ID are consulted only if there is no such section
+        # (they may belong to a different variant with the same ID)
+        sections = ["variant-%s" % self._variant.uid, "addon-%s" % self._variant.uid]
+        if not [i for i in sections if parser.has_section(i)]:
+            sections = ["variant-%s" % self._variant.id, "addon-%s" % self._variant.id]
         for field in self._fields:
-            lookup = [
-                ("variant-%s" % self._variant.uid, field),
-                ("variant-%s" % self._variant.id, field),
-                ("addon-%s" % self._variant.uid, field),
-                ("addon-%s" % self._variant.id, field),
-            ]
+            lookup = [(section, field) for section in sections]
             value = parser.option_lookup(lookup, None)
             setattr(self, field, value)
 
